@@ -126,6 +126,16 @@ pub fn fuzz_init() {
     });
 }
 
+/// Runs the engine on a thread with Rust's default thread stack (2 MiB) instead of the 8 MiB main-thread stack: the
+/// functions under test are meant to be usable from any thread, and a recursion whose depth grows with the input
+/// shows up four times earlier.
+pub fn on_thread(f: fn()) {
+    let h = std::thread::Builder::new().name("engine".into()).stack_size(2 << 20).spawn(f).expect("spawn engine thread");
+    if h.join().is_err() {
+        std::process::exit(101);
+    }
+}
+
 pub fn panic_message(e: Box<dyn std::any::Any + Send>) -> String {
     if let Some(s) = e.downcast_ref::<&str>() {
         s.to_string()
@@ -327,6 +337,30 @@ impl Ctx {
     /// number of violations recorded for this check name so far
     pub fn failed(&self, check: &str) -> usize {
         self.violations.iter().filter(|v| v.check == check).count()
+    }
+
+    /// Before a case whose evaluation depth or memory may depend on the input size (long-input families): records the
+    /// case in `work/<property>/inflight-<engine>-<mode>.json`.  If the process then dies (stack overflow in a
+    /// recursive implementation), /verif/check finds the case there and reports it as the violating input.
+    pub fn inflight<C: Serialize>(&mut self, check: &str, case: &C) {
+        let body = json!({
+            "property": self.args.prop, "engine": self.args.engine, "check": check, "case": case,
+            "mode": self.args.mode, "seed": self.args.seed,
+            "message": "the process was killed while this case was being evaluated",
+        });
+        let path = self.inflight_path();
+        if let Some(dir) = path.parent() {
+            let _ = std::fs::create_dir_all(dir);
+        }
+        let _ = std::fs::write(&path, serde_json::to_string(&body).unwrap_or_default());
+    }
+    fn inflight_path(&self) -> PathBuf {
+        let dir = self.args.out.parent().map(|p| p.to_path_buf()).unwrap_or_else(|| PathBuf::from(format!("{VERIF_DIR}/work/{}", self.args.prop)));
+        dir.join(format!("inflight-{}-{}.json", self.args.engine, self.args.mode))
+    }
+    /// the long-input case finished: nothing is in flight
+    pub fn landed(&mut self) {
+        let _ = std::fs::remove_file(self.inflight_path());
     }
 
     /// Runs one case of `check`: counts it, catches panics, records a violation on `Err`.
